@@ -170,6 +170,51 @@ def bundled(tier):
     return [o for o in out if Path(o[0]).exists() and Path(o[0]).stat().st_size > 0]
 
 
+def run_api_shapes(_):
+    """API-built reactions at and beyond what the native line can carry (3 reactants / 5 products):
+    the cycle must reproduce the reaction or writing must be refused - never a silently different model"""
+    from ..harness.render import reset_globals, scratch, quiet
+
+    reset_globals()
+    from naunet.network import Network
+    from naunet.reactions.reaction import Reaction
+    from naunet.reactiontype import ReactionType
+
+    viols = []
+    n = 0
+    tmp = Path(tempfile.mkdtemp(dir=scratch()))
+    try:
+        names = ["H", "H2", "C", "O", "CO", "e-"]
+        for nr in (1, 2, 3, 4):
+            for np_ in (0, 1, 5, 6):
+                for rot in range(3):
+                    r = [names[(rot + i) % len(names)] for i in range(nr)]
+                    p = [names[(rot + 2 * i + 1) % len(names)] for i in range(np_)]
+                    case = {"api_shape": [nr, np_, rot]}
+                    n += 1
+                    with quiet():
+                        net = Network([Reaction(list(r), list(p), 10.5, 300.25, -2.5e-11, 0.5, -3.0, ReactionType.GAS_TWOBODY, 99999)])
+                        f = tmp / "a.naunet"
+                        try:
+                            net.write(f, "naunet")
+                        except Exception:
+                            continue  # refused: fine
+                        try:
+                            back = Network(filelist=str(f), fileformats="naunet")
+                        except Exception as e:
+                            viols.append((f"C18:api-shape:read-raises:{nr}r{np_}p", f"{r}->{p}: written but reading back raises {e!r}", case))
+                            continue
+                    got = snapshot(back)
+                    exp = snapshot(net)
+                    if got != exp:
+                        what = "reactants/products" if (got and (got[0]["reactants"], got[0]["products"]) != (exp[0]["reactants"], exp[0]["products"])) or len(got) != len(exp) else "fields"
+                        over = "beyond-format-capacity" if nr > 3 or np_ > 5 else "within-capacity"
+                        viols.append((f"C18:api-shape:{over}:{what}", f"API reaction {r} -> {p} comes back as {got[0]['reactants'] if got else None} -> {got[0]['products'] if got else None} (and {len(got)} reactions)", case))
+        return n, viols
+    finally:
+        shutil.rmtree(tmp, ignore_errors=True)
+
+
 # ---- export + re-render -------------------------------------------------------------------
 def export_cases(tier):
     out = []
@@ -306,6 +351,9 @@ def run(ctx):
     for n, viols in ctx.pmap(run_bundled, bundled(ctx.tier)):
         nb += n
         ctx.absorb(viols)
+    for n, viols in ctx.pmap(run_api_shapes, [0]):
+        nb += n
+        ctx.absorb(viols)
     ex = export_cases(ctx.tier)
     outcomes = {}
     with mp.get_context("fork").Pool(ctx.workers, maxtasksperchild=1) as pool:
@@ -334,7 +382,10 @@ def run(ctx):
 
 
 def replay(ctx, case):
-    if "bundled" in case:
+    if "api_shape" in case:
+        n, v = run_api_shapes(0)
+        ctx.absorb(v)
+    elif "bundled" in case:
         n, v = run_bundled((case["bundled"], case["fmt"], case["kw"]))
         ctx.absorb(v)
     elif "kind" in case:
